@@ -40,7 +40,7 @@ P = {
          "Not decided: soundness of the pattern translation, capture groups, the matching protocol's values (a language-equivalence question)."),
  "C11": ("type-switch exhaustiveness over encoding/json's dynamic types, cycle-test dominance, gap bound dominance, error mapping",
          "Decides: JSON.parse's walker covers every dynamic type encoding/json can produce; every recursive stringify step on an object is dominated by the cycle test that throws TypeError; the gap is clamped to 10 before it is stored; Unmarshal errors map to SyntaxError on all paths.",
-         "Not decided: acceptance of exactly the JSON grammar (delegated to encoding/json), round-trip equality, reviver/replacer order."),
+         "Not decided: acceptance of exactly the JSON grammar (delegated to encoding/json), round-trip equality, reviver order, property order of parsed objects."),
  "C12": ("sibling dominance rule over the Date.prototype built-ins",
          "Decides only the last sentence (an invalid date stays invalid): every Date.prototype method obtains its date through the class guard and branches on isNaN before using the time value.",
          "Not decided: the whole time-value algebra."),
@@ -69,6 +69,41 @@ P = {
          "Decides: no package-level variable of the core packages is written after initialisation from code reachable from the API; compiled nodes, ast and file objects are never written by execution; no goroutine or channel other than Interrupt exists in the core packages; clones share no mutable reference.",
          "Assumed: the standard-library objects used (regexp, time.Local, math/rand top-level, x/text printers) are concurrency-safe as documented. Not decided: result equality under interleavings (follows from no sharing, which is what is checked)."),
 }
+
+# additions for the rules built after the second seeding round: (technique, decided) appended to the entries above
+ADD = {
+ "C01": ("declaration-binding step order; relational-operator operand order and LeftFirst flag; enumeration-under-mutation rule",
+         "Function entry binds parameters, then the arguments object, then function declarations, then vars (ES5 10.5); each relational arm passes its operands in the prescribed order with the prescribed LeftFirst flag; no writer shifts the property-order list in place under a running enumeration."),
+ "C02": ("constant-index guard rule in the parser; prototype payload agreement",
+         "Every constant index or slice bound on parser input is dominated by a length test that covers it; the internal value of each primitive-wrapper / Date / RegExp prototype has the Go type its constructor stores."),
+ "C03": ("interprocedural typestate analysis of the allowIn flag; dead flag-store rule",
+         "Every place the grammar says Expression/AssignmentExpression is entered only with allowIn=true, the for initialiser only with false, and every writer of the flag restores it; no store to a scanner/parser flag is overwritten before it can be read."),
+ "C04": ("early-error rule for regular expression literals; constant-index guard rule",
+         "A regular expression literal is translated and compiled at parse time and both errors are reported; constant indexing of parser input is length-guarded."),
+ "C05": ("finite evaluation of the relational outcome mapping; argument-conversion table; sibling equality-kind table; positive/negative corpus for the StringNumericLiteral guard",
+         "The four relational operators map the three-valued comparison outcome as ES5 11.8.1-4 prescribe (undefined -> false); sameValue / strict equality / == agree on the six kinds and only SameValue distinguishes the zeros; the ToNumber grammar guard accepts every ES5 form and rejects every Go-only form."),
+ "C06": ("argument-conversion table; undefined-default rule",
+         "parseInt's radix is converted with ToInt32, toFixed/toExponential/toPrecision/toString arguments with ToInteger, and an explicit undefined takes the default where the clause says so."),
+ "C07": ("[[CanPut]] consultation order; integrity-function attribute table; enumeration-under-mutation rule; exotic [[GetOwnProperty]] fallback; SameValue call-site rule",
+         "object.extensible is consulted only where 8.12.4 consults it; freeze/seal/preventExtensions/isFrozen/isSealed/isExtensible touch exactly the attributes of their algorithm and freeze clears [[Writable]] independently of [[Configurable]]; the enumeration primitive re-validates names and no writer shifts the order list in place; every exotic [[GetOwnProperty]] answers 'absent' only after the ordinary lookup; [[DefineOwnProperty]] compares with SameValue."),
+ "C08": ("undefined-default rule; length-put must-pass-through rule; argument-conversion table; strict-equality call-site rule",
+         "slice/splice/join/sort arguments are converted / defaulted as their clauses say; pop push shift splice unshift end every path with Put(length, n, true); indexOf/lastIndexOf compare with ===."),
+ "C09": ("undefined-default rule; argument-conversion table; exotic [[GetOwnProperty]] fallback",
+         "String.prototype position/length/limit arguments get the conversion of their clause and undefined takes the default; String objects' own-property lookup consults ordinary properties first."),
+ "C10": ("undefined-default rule for the RegExp constructor; argument-conversion table (exec/test/match/replace/search/split)", "RegExp(pattern, flags) treats undefined as empty; the regexp built-ins convert their string arguments with ToString and split's limit with ToUint32."),
+ "C11": ("Str step-order rule", "In JSON.stringify's walker toJSON is applied before the replacer function is called (15.12.3 Str steps 2-3)."),
+ "C12": ("argument-conversion table; dead NaN-test contradiction rule", "Date constructor / Date.UTC / set* arguments are converted with ToNumber (not a NaN-absorbing conversion); no NaN test is applied to a value that can no longer be NaN."),
+ "C13": ("argument-conversion table for Math and the global functions; signed-zero obligation for max/min; dead NaN-test rule", "Every Math function converts every argument with ToNumber and nothing else; Math.max/min order +0 above -0 (math.Max/Min or a sign-bit test)."),
+ "C14": ("prototype payload agreement", "Boolean/Number/String/Date/RegExp.prototype hold an internal value of the Go type their constructor stores."),
+ "C15": ("wrapping-conversion census", "Every conversion from an unsigned 64-bit-wide integer to a signed one is range-guarded or reviewed."),
+ "C16": ("wrapping-conversion census; captured-buffer rule for native function closures", "No bridged call shares an argument buffer allocated outside the per-call closure; unsigned-to-signed 64-bit conversions are range-guarded."),
+ "C17": ("copy-loop exhaustion rule; File immutability", "No copy loop in a clone function leaves early; a file.File is never written after construction."),
+ "C19": ("frame-address escape rule", "Error traces and Context stack traces hold value copies of frames: the address of a live scope's frame is never stored, appended or passed on; the copy's error prototypes are wired positionally."),
+ "C20": ("File immutability; frame-address escape rule; captured-buffer rule", "A Script's file.File is never written after construction (no lazily filled cache); no native closure writes a buffer captured from outside."),
+}
+for _pid, (_t, _d) in ADD.items():
+    t0, d0, n0 = P[_pid]
+    P[_pid] = (t0 + "; " + _t, d0 + " Also: " + _d, n0)
 
 def main():
     env = dict(os.environ, GOFLAGS="-mod=mod", GOPROXY="off", GOSUMDB="off", GOTOOLCHAIN="local")
